@@ -96,6 +96,16 @@ fn c09_compare_socket_addr_is_equality() {
     kani::cover!(a == b);
 }
 
+/// ... and even for a request sent to the unspecified address (the recorded finding D10 is "any IP
+/// on the SAME port"): a reply from another port is never attributed to it.
+#[kani::proof]
+fn c09_a_reply_from_another_port_never_matches() {
+    let a = any_addr();
+    let b = any_addr();
+    assert!(!compare_socket_addr(&a, &b) || a.port() == b.port(), "C09: the source port of a reply must be the port the request was sent to, whatever the destination ip was");
+    kani::cover!(a.ip().is_unspecified() && a.port() != b.port());
+}
+
 /// KNOWN FINDING D10: a request sent to 0.0.0.0:p is answered by any ip on port p.
 /// The property demands equality of addresses; this harness asserts it on that input class.
 #[kani::proof]
@@ -331,3 +341,95 @@ fn c18_outgoing_messages_carry_ro_iff_client() {
     core::mem::forget(r);
     core::mem::forget(sock);
 }
+
+
+// ---------------------------------------------------------------------------------------------
+// C09: recv_from is the only way a datagram reaches the core. Responses AND errors are handed on
+// only if is_expected_response accepts them for their source address; requests are handed on as
+// they are; datagrams from port 0 are dropped. The UDP read and the bencode parser are replaced by
+// ghost values (a datagram from an arbitrary address that parses to an arbitrary kind of message).
+// ---------------------------------------------------------------------------------------------
+static mut RX_FROM: (u32, u16) = (0, 0);
+static mut RX_KIND: u8 = 0; // 0 request, 1 response, 2 error
+static mut RX_TID: u32 = 0;
+static mut GATE_CALLS: u32 = 0;
+static mut GATE_FROM: (u32, u16) = (0, 0);
+static mut GATE_TID: u32 = 0;
+static mut GATE_VERDICT: bool = false;
+
+fn stub_udp_recv_from(_s: &UdpSocket, _buf: &mut [u8]) -> std::io::Result<(usize, SocketAddr)> {
+    let (ip, port) = unsafe { RX_FROM };
+    Ok((20, SocketAddr::V4(addr(ip, port))))
+}
+fn stub_set_read_timeout(_s: &UdpSocket, _d: Option<Duration>) -> std::io::Result<()> {
+    Ok(())
+}
+fn stub_from_bytes(_bytes: &[u8]) -> Result<Message, crate::common::DecodeMessageError> {
+    let tid = unsafe { RX_TID };
+    let mt = match unsafe { RX_KIND } {
+        0 => MessageType::Request(RequestSpecific { requester_id: Id::from([2u8; 20]), request_type: crate::common::RequestTypeSpecific::Ping }),
+        1 => MessageType::Response(ResponseSpecific::Ping(PingResponseArguments { responder_id: Id::from([1u8; 20]) })),
+        _ => MessageType::Error(crate::common::ErrorSpecific { code: 203, description: String::new() }),
+    };
+    Ok(Message { transaction_id: tid, version: None, requester_ip: None, read_only: false, message_type: mt })
+}
+fn stub_gate(_s: &mut KrpcSocket, message: &Message, from: &SocketAddrV4) -> bool {
+    unsafe {
+        GATE_CALLS += 1;
+        GATE_FROM = (from.ip().to_bits(), from.port());
+        GATE_TID = message.transaction_id;
+        GATE_VERDICT
+    }
+}
+
+fn recv_case(kind: u8) -> (bool, bool) {
+    let mut sock = socket_with(true, InflightRequests::new());
+    let ip: u32 = kani::any();
+    let port: u16 = kani::any();
+    let tid: u32 = kani::any();
+    let verdict: bool = kani::any();
+    unsafe {
+        RX_FROM = (ip, port);
+        RX_KIND = kind;
+        RX_TID = tid;
+        GATE_VERDICT = verdict;
+    }
+    let r = sock.recv_from();
+    let got = r.is_some();
+    if port == 0 {
+        assert!(!got && unsafe { GATE_CALLS } == 0, "a datagram from port 0 is dropped");
+    } else if kind == 0 {
+        assert!(got && unsafe { GATE_CALLS } == 0, "requests are handed on as they are");
+    } else {
+        assert!(unsafe { GATE_CALLS } == 1 && unsafe { GATE_FROM } == (ip, port) && unsafe { GATE_TID } == tid,
+            "C09: every response and every error message goes through is_expected_response with its real source address and its transaction id");
+        assert!(got == verdict, "C09: ... and reaches the core only if that gate accepts it");
+    }
+    if let Some((m, from)) = &r {
+        assert!(m.transaction_id == tid && from.port() == port && from.ip().to_bits() == ip);
+    }
+    core::mem::forget(r);
+    core::mem::forget(sock);
+    (got, port == 0)
+}
+
+macro_rules! recv_harness {
+    ($name:ident, $kind:expr) => {
+        #[kani::proof]
+        #[kani::unwind(5)]
+        #[kani::stub(std::time::Instant::now, clock::mock_now)]
+        #[kani::stub(std::time::Instant::elapsed, clock::mock_elapsed)]
+        #[kani::stub(std::net::UdpSocket::recv_from, stub_udp_recv_from)]
+        #[kani::stub(std::net::UdpSocket::set_read_timeout, stub_set_read_timeout)]
+        #[kani::stub(Message::from_bytes, stub_from_bytes)]
+        #[kani::stub(KrpcSocket::is_expected_response, stub_gate)]
+        fn $name() {
+            let (got, port0) = recv_case($kind);
+            kani::cover!(got);
+            kani::cover!(!got && !port0 || $kind == 0);
+        }
+    };
+}
+recv_harness!(c09_recv_from_hands_on_requests, 0);
+recv_harness!(c09_recv_from_gates_responses_by_tid_and_source_address, 1);
+recv_harness!(c09_recv_from_gates_error_messages_by_tid_and_source_address, 2);
